@@ -83,11 +83,11 @@ P("C04", [f"{RQ}:_region_to_extent", f"{RQ}:region_to_extent", f"{RQ}:region_to_
        "Cooler invariant (cached ids/lengths agree with the stored table, recorded bin size truthful) is a precondition.",
   unverified=["GenomeSegmentation.fetch / bedslice", "open_hdf5 (assumed: yields the file handle; h5[root] is the collection's group)"])
 
-P("C05", [f"{ING}:_sanitize_pixels", f"{UT}:get_binsize"], "bounded/C05.py",
+P("C05", [f"{ING}:_sanitize_pixels", f"{UT}:get_binsize", "cooler.cli.load:load", "cooler.cli.cload:pairs"], "bounded/C05.py",
   "Proof core: the pre-binned-record sanitizer is verified per record for all chunks: one-based shift by exactly one, "
   "mirroring of lower-triangle records together with their sided fields, drop keeps exactly the upper records in order, "
-  "raise refuses exactly when a lower-triangle record exists. The genomic-record sanitizer (_sanitize_records: bin "
-  "assignment) and the loaders are covered by the bounded tier only (records on every bin edge through API, load, cload pairs, cload tabix).", level="other",
+  "raise refuses exactly when a lower-triangle record exists. The loaders' glue (cli.load, cli.cload pairs) is under coordinator contracts: which file column feeds which field, which sanitizer with which one-based / triangle handling, every chunk through it (shared with C16). The genomic-record sanitizer (_sanitize_records: bin "
+  "assignment) is covered by the bounded tier only (records on every bin edge through API, load, cload pairs, cload tabix).", level="other",
   unverified=["_sanitize_records (bin assignment)", "aggregate_records", "TabixAggregator.aggregate"])
 
 P("C06", [f"{RED}:merge_breakpoints", f"{RED}:CoolerMerger.__iter__", f"{CR}:create_from_unordered"], "bounded/C06.py",
@@ -153,8 +153,8 @@ P("C15", [f"{UT}:parse_cooler_uri", "cooler.fileops:_copy", "cooler.fileops:_is_
               "h5py link/copy semantics (assumed by the operation-log model)"])
 
 P("C16", [f"{ING}:_sanitize_pixels", f"{ING}:_validate_pixels", f"{RQ}:FillLowerRangeQuery2D.__init__", f"{RQ}:DirectRangeQuery2D.__init__",
-          "cooler.cli.dump:dump", "cooler.cli.dump:make_annotator.annotator"], "bounded/C16.py", "Proof core: the pieces of the dump/load paths that are under contract - the query engines dump iterates (exactly-once lemma, shared with C03) and the pre-binned-record sanitizer and validator cooler load runs every chunk through (shared with C05/C13). cli.dump (pixel table) is under a coordinator contract (all flags, regions, storage mode, chunk size symbolic): the box is the whole matrix without regions, the extent of -r on both axes with -r alone, the extents of -r (rows) and -r2 (columns) with both, each looked up with this cooler's ids, lengths and bin size; the lower triangle is filled iff --fill-lower was given and the cooler is symmetric-upper wherever the box reaches below the diagonal; every engine chunk is written once, in order, through the annotator iff an annotation option was given (built from this cooler's bins and exactly the flags), -c applied after annotation, header once iff asked. The annotator (nested function) is verified over pandas frames: balanced = count x weight[bin1] x weight[bin2], join replaces ids by the coordinates of the pixel's own bins, the one-based flags add exactly one to the ids / starts present. The loaders' column mapping, text formatting and the zoomify spec expansion are covered by the bounded tier (all 128 dump option subsets, all column permutations).",
-  level="other", unverified=["to_csv text formatting", "cli.dump chroms/bins tables", "cli.load / cli.cload.pairs (column mapping)", "parse_field_param", "zoomify spec loop"])
+          "cooler.cli.dump:dump", "cooler.cli.dump:make_annotator.annotator", "cooler.cli.load:load", "cooler.cli.cload:pairs"], "bounded/C16.py", "Proof core: the pieces of the dump/load paths that are under contract - the query engines dump iterates (exactly-once lemma, shared with C03) and the pre-binned-record sanitizer and validator cooler load runs every chunk through (shared with C05/C13). cli.dump (pixel table) is under a coordinator contract (all flags, regions, storage mode, chunk size symbolic): the box is the whole matrix without regions, the extent of -r on both axes with -r alone, the extents of -r (rows) and -r2 (columns) with both, each looked up with this cooler's ids, lengths and bin size; the lower triangle is filled iff --fill-lower was given and the cooler is symmetric-upper wherever the box reaches below the diagonal; every engine chunk is written once, in order, through the annotator iff an annotation option was given (built from this cooler's bins and exactly the flags), -c applied after annotation, header once iff asked. The annotator (nested function) is verified over pandas frames: balanced = count x weight[bin1] x weight[bin2], join replaces ids by the coordinates of the pixel's own bins, the one-based flags add exactly one to the ids / starts present. The loaders `cooler load` and `cooler cload pairs` are under coordinator contracts over families of column layouts (defaults, value column moved, ids swapped / moved behind the value columns, descending interleaved, extra columns with dtypes and aggregations; parse_field_param executed inline): pandas reads exactly one file column per field and the NAME attached to file column c is the field the user put at c (names attach in ascending file order: assumed contract of read_csv); stored columns, dtypes and aggregations as given; the right sanitizer for the format with the one-based flag and reflect/drop by copy status and symmetry; every chunk goes through sanitizer (then aggregator) into the ingest with the caller's paths, mode and options. Text formatting and the zoomify spec expansion are covered by the bounded tier (all 128 dump option subsets, all column permutations).",
+  level="other", unverified=["to_csv / read_csv text handling", "cli.dump chroms/bins tables", "column layouts other than the verified families (the mapping code does not depend on the layout)", "zoomify spec loop"])
 
 P("C17", [f"{CR}:create", f"{CR}:create_scool", "cooler.fileops:is_scool_file", "cooler.fileops:list_scool_cells"], "bounded/C17.py", "Proof core: the per-cell append path of create() (create() itself is verified as a coordinator over a ghost operation log (every helper and h5py call replaced by a recording stub; 41 configurations of mode/append/root-or-nested target/check flags/input forms/single-cell append, symbolic paths, counts and symmetric flag)): a cell's chroms table and its three standard bin columns are hard links to the ROOT tables of the single-cell file named by scool_root_uri (no table is written again), its own extra bin columns - exactly the non-standard columns of the cell's bin table - are stored per cell under <cell>/bins, its pixels, indexes and info are written as for any collection, the root file is never truncated, and append_scool without a root URI is refused. create_scool itself (coordinator, 1..3 cells given in an insertion order different from the sorted one, common or per-cell bin tables): every cell gets exactly one per-cell create at <file>::/cells/<name> with ITS OWN pixels and ITS OWN bin table, appended and linked to this file's root; the root gets the common chroms, the three standard bin columns and a scool info record with ncells = number of cells; the file is created with the caller's mode once; a bins dict with other keys than the cells is refused. (A name containing '/' is stored under its basename: known finding, refuted clause.) is_scool_file / list_scool_cells over a ghost tree (root, /chroms, /bins, /cells with three cells whose names mix digit-initial and letter-initial names; every format attribute symbolic): recognised iff the root carries the scool format and every cell is a collection; the listing names exactly the cells (root excluded), each once, in natural order, and never fails on mixed names; OSError otherwise. Larger cell sets and reading back are covered by the bounded tier.", level="other",
   unverified=["is_scool_file / list_scool_cells for other tree shapes than the verified ones", "create_scool for more than 3 cells (the per-cell loop does not depend on the count)", "h5py hard-link semantics (assumed)"])
